@@ -285,3 +285,60 @@ Definition rsp_enc_prog_model : enc_table :=
    (s2l "WriteSingleRegister", [PFc; PU16 (EArg 0); PU16 (EArg 1)]);
    (s2l "MaskWriteRegister", [PFc; PU16 (EArg 0); PU16 (EArg 1); PU16 (EArg 2)]);
    (s2l "Custom", [PFc; PSlice 1])].
+
+(* ---- the four frame encoders (impl Encoder for ClientCodec / ServerCodec, RTU and TCP) as programs: the ORDER of the size
+   check and the buffer writes matters -- a refused PDU must leave nothing behind in the write buffer ---- *)
+Inductive fop :=
+| FOffset                      (* let buf_offset = buf.len()                               *)
+| FSize                        (* let n = request_pdu_size / response_result_pdu_size ...? *)
+| FReserve (k : N)             (* buf.reserve(n + k)                                       *)
+| FSlave | FUid                (* buf.put_u8(hdr.slave_id) / buf.put_u8(hdr.unit_id)       *)
+| FTid | FPid                  (* buf.put_u16(hdr.transaction_id) / put_u16(PROTOCOL_ID)   *)
+| FLenField (k : N)            (* buf.put_u16(u16_len(n + k))                              *)
+| FPdu                         (* encode_request_pdu / encode_response_result_pdu          *)
+| FCrc.                        (* let crc = calc_crc of buf from buf_offset; put_u16(crc)  *)
+Inductive ftok := KSize | KSlave | KUid | KTid | KPid | KLen (k : N) | KPdu | KCrc.
+
+(* well-formedness and normal form: the tokens in execution order; FOffset must precede every write (then the CRC covers exactly this
+   frame), FReserve / FLenField need the size; FOffset and FReserve write nothing *)
+Fixpoint compile_frame (ps : list fop) (off size wrote : bool) : option (list ftok) :=
+  match ps with
+  | [] => Some []
+  | FOffset :: r => if wrote then None else compile_frame r true size wrote
+  | FSize :: r => option_map (cons KSize) (compile_frame r off true wrote)
+  | FReserve _ :: r => if size then compile_frame r off size wrote else None
+  | FSlave :: r => option_map (cons KSlave) (compile_frame r off size true)
+  | FUid :: r => option_map (cons KUid) (compile_frame r off size true)
+  | FTid :: r => option_map (cons KTid) (compile_frame r off size true)
+  | FPid :: r => option_map (cons KPid) (compile_frame r off size true)
+  | FLenField k :: r => if size then option_map (cons (KLen k)) (compile_frame r off size true) else None
+  | FPdu :: r => option_map (cons KPdu) (compile_frame r off size true)
+  | FCrc :: r => if off then option_map (cons KCrc) (compile_frame r off size true) else None
+  end.
+
+(* what the buffer has gained when encode returns (or unwinds), and its result *)
+Fixpoint run_toks (m : mode) (h : hdr) (pid : N) (size : outcome N) (pdu : outcome (list N)) (ts : list ftok)
+         (out : list N) (sz : N) : list N * outcome unit :=
+  match ts with
+  | [] => (out, Val tt)
+  | KSize :: r => match size with Val n => run_toks m h pid size pdu r out n | Fail k => (out, Fail k) | Panic => (out, Panic) end
+  | KSlave :: r | KUid :: r => run_toks m h pid size pdu r (out ++ [snd h]) sz
+  | KTid :: r => run_toks m h pid size pdu r (out ++ be16 (fst h)) sz
+  | KPid :: r => run_toks m h pid size pdu r (out ++ be16 pid) sz
+  | KLen k :: r => match u16_len m (sz + k) with Val l => run_toks m h pid size pdu r (out ++ be16 l) sz | Fail e => (out, Fail e) | Panic => (out, Panic) end
+  | KPdu :: r => match pdu with Val bs => run_toks m h pid size pdu r (out ++ bs) sz | Fail e => (out, Fail e) | Panic => (out, Panic) end
+  | KCrc :: r => run_toks m h pid size pdu r (out ++ crc2 out) sz
+  end.
+
+Definition rtu_frame_toks : list ftok := [KSize; KSlave; KPdu; KCrc].
+Definition tcp_frame_toks : list ftok := [KSize; KTid; KPid; KLen 1; KUid; KPdu].
+Definition rtu_frame_prog_model : list fop := [FOffset; FSize; FReserve 3; FSlave; FPdu; FCrc].
+Definition tcp_frame_prog_model : list fop := [FSize; FReserve 7; FTid; FPid; FLenField 1; FUid; FPdu].
+
+(* a run agrees with an encoder of the model: same frame on success; on refusal the same error AND nothing written; same panic *)
+Definition enc_agrees (run : list N * outcome unit) (model : outcome (list N)) : Prop :=
+  match model with
+  | Val f => run = (f, Val tt)
+  | Fail k => run = ([], Fail k)
+  | Panic => snd run = Panic
+  end.
